@@ -174,6 +174,11 @@ func (t *PageTree) traversePageNode(node core.Dict, parent core.Dict) error {
 
 	switch string(typeName) {
 	case "Pages":
+		// Inheritable attributes flow down the whole tree, not just one level:
+		// hand the children a view of this node that also carries what this
+		// node itself inherited.
+		node = withInherited(node, parent)
+
 		// Intermediate node - traverse children
 		kidsObj := node.Get("Kids")
 		if kidsObj == nil {
@@ -220,6 +225,38 @@ func (t *PageTree) traversePageNode(node core.Dict, parent core.Dict) error {
 	}
 
 	return nil
+}
+
+// inheritableKeys are the page attributes a /Pages node passes on to its
+// descendants (ISO 32000-1, Table 30).
+var inheritableKeys = []string{"Resources", "MediaBox", "CropBox", "Rotate"}
+
+// withInherited returns node extended with the inheritable attributes that it
+// does not define itself but its parent (which already carries those of its own
+// ancestors) does. The node's own entries always win; node is not modified.
+func withInherited(node core.Dict, parent core.Dict) core.Dict {
+	if parent == nil {
+		return node
+	}
+	var merged core.Dict
+	for _, key := range inheritableKeys {
+		if node.Get(key) != nil {
+			continue
+		}
+		if val := parent.Get(key); val != nil {
+			if merged == nil {
+				merged = make(core.Dict, len(node)+len(inheritableKeys))
+				for k, v := range node {
+					merged[k] = v
+				}
+			}
+			merged[key] = val
+		}
+	}
+	if merged == nil {
+		return node
+	}
+	return merged
 }
 
 // Page represents a single PDF page
